@@ -17,6 +17,8 @@ def run(chk, replay=None):
     quick = chk.tier == "quick"
     # 1. design level: the dispatch table is well formed (ASSUMEs) and every Recv satisfies the three predicates
     chk.mc(vf.tlc_mc("IqDispatch.tla", "IqDispatch.cfg", workers=4), "IqDispatch.cfg")
+    # ... and the deferred-reply machinery (file offer / SOCKS5 stream hosts) interleaved with ordinary IQs
+    chk.mc(vf.tlc_mc("IqDispatch.tla", "IqDispatchDefer.cfg", workers=4), "IqDispatchDefer.cfg")
     # 2. behaviours
     if replay:
         behs = [b for b in replaycache.read(replay) if "steps" in b]
@@ -34,9 +36,16 @@ def run(chk, replay=None):
         # random sequences in which a tracked request is always outstanding (re-issued after it completes)
         simp, st3p = vf.tlc_simulate("IqDispatchGen.tla", "IqDispatchGenSimPend.cfg", num=200 if quick else 10000, depth=12,
                                      seed=chk.seed, workers=2)
-        behs = vf.maximal_behaviours(tour + pend + allp + sim + simp)
+        # deferred replies: every transition of the file-offer / stream-host machinery (tour), all its paths,
+        # and random sequences in which ordinary IQs arrive while replies are deferred
+        dtour, st4 = vf.tlc_gen("IqDispatchGen.tla", "IqDispatchGenDefer.cfg")
+        dall, st5 = vf.tlc_gen("IqDispatchGen.tla", "IqDispatchGenDeferAll.cfg")
+        dsim, st6 = vf.tlc_simulate("IqDispatchGen.tla", "IqDispatchGenDeferSim.cfg", num=150 if quick else 4000, depth=14,
+                                    seed=chk.seed, workers=2)
+        behs = vf.maximal_behaviours(tour + pend + allp + sim + simp + dtour + dall + dsim)
         chk.cov["generation"] = {"tour": st1, "tour_pending_request": st1p, "all_paths": st2, "simulate": st3,
-                                 "simulate_pending_request": st3p}
+                                 "simulate_pending_request": st3p, "deferred_tour": st4, "deferred_all_paths": st5,
+                                 "deferred_simulate": st6}
     vf.write_ndjson(chk.path("behaviours.ndjson"), behs)
     # 3. replay on the real client
     trace = chk.path("trace.ndjson")
@@ -44,7 +53,7 @@ def run(chk, replay=None):
     if r["sanitizer"]:
         chk.note("sanitizer output while replaying (C08 has no crash clause; reported only): " + "; ".join(r["sanitizer"][:3]))
     vf.repair_truncated(trace)
-    cases = vf.split_cases(trace)
+    cases = vf.split_cases(trace, with_lines=True)
     # 4. trace validation
     s = vf.tlc_trace("IqDispatchTrace.tla", "IqDispatchTrace.cfg", trace)
     chk.cov["traces_validated_against_impl"] = s["cases"]
@@ -102,16 +111,49 @@ def run(chk, replay=None):
         chk.violation(sig, f"{what}{coll}: extensions={b['ext']} type={ln['x']['type']!r} payload={v['p']} "
                            f"senders={sorted(e['senders'])}; injected {ln['raw']}; sent back {ln['out']}; "
                            f"own task completed {ln.get('tdone', 0)}x",
-                      [b] + cases[v["case"]])
-    chk.cov["distinct_violating_inputs"] = len(reported)
+                      [b] + [{k: x[k] for k in x if k != "_l"} for x in cases[v["case"]]])
+    # deferred replies: one report per (property, request, sequence of deferred-reply steps up to the failing line)
+    dseen = set()
+    DEFER = {"OfferSI", "AppAccept", "AppDecline", "HostsOffer", "SecondHosts", "AbortJob", "HostAccepts", "HostCloses"}
+    for v in sorted(s.get("dviol", []), key=lambda v: v["line"]):
+        b = behs[int(v["case"][1:]) - 1]
+        upto = [x for x in cases[v["case"]] if x.get("_l", 0) <= v["line"]]
+        seq = ",".join(x["e"] + (f"({x['nh']})" if "nh" in x else "") for x in upto if x.get("e") in DEFER)
+        sig = f"C08:{v['prop']}:{v['tag']}:{seq}"
+        key = (v["prop"], v["tag"], seq.rsplit(",AbortJob", 1)[0] if seq.endswith(",AbortJob") else seq)
+        if key in dseen:
+            continue
+        dseen.add(key)
+        ln = next(x for x in upto if x.get("_l") == v["line"])
+        req = {"offer": "the SI file offer (IQ set)", "hosts": "the bytestreams IQ set with the stream hosts",
+               "second": "the second bytestreams IQ set for the same stream"}[v["tag"]]
+        rid = next((t["id"] for t in ln.get("track", []) if t["tag"] == v["tag"]), "?")
+        what = (f"{req}, id {rid!r}, got {v['n']} replies instead of exactly one although the "
+                f"{'decision' if v['tag'] == 'offer' else 'connection attempt'} it waits for has ended"
+                if v["prop"] == "DeferredAnswered" else f"{req}, id {rid!r}, got {v['n']} replies")
+        chk.violation(sig, f"{what}; steps: {seq}; replies so far {ln.get('track')}",
+                      [b] + [{k: x[k] for k in x if k != "_l"} for x in cases[v["case"]]])
+        if len(dseen) >= 12:
+            break
+    chk.cov["deferred_reply_steps"] = s.get("defersteps", 0)
+    chk.cov["deferred_replies_judged_due"] = s.get("deferreddue", 0)
+    if not replay and s.get("deferreddue", 0) == 0:
+        raise vf.MachineryError("no deferred reply became due: the deferred-reply dimension is vacuous")
+    chk.cov["distinct_violating_inputs"] = len(reported) + len(dseen)
     chk.assumptions += ["a reply without `to` reaches a sender that is the user's server or own bare JID (handled by the server "
                         "on behalf of the account); for every other sender `to` must equal the sender",
                         "at most one tracked request of the client's own is outstanding at a time (QXmppClient::sendIq, disco#info "
                         "get); id collisions are explored for a representative payload subset (none, unknown, version, vcard, "
                         "discoInfo, roster, ibbData, errorOnly) x all types x all sender classes x 4 peers x extension sets none/all, and by random sequences "
                         "over the full vocabulary",
-                        "all bundled managers answer synchronously or from posted events; the event loop is drained after "
-                        "every injection (no manager defers its reply to a timer or socket)",
+                        "apart from the two deferring handlers of QXmppTransferManager (SI file offer, SOCKS5 stream-host offer; "
+                        "driven explicitly with an application that listens to fileReceived and loopback stream hosts of the "
+                        "harness) all bundled managers answer synchronously or from posted events; the event loop is drained "
+                        "after every injection",
+                        "a deferred reply is judged once the event it waits for has been driven to its end while the stream stays "
+                        "up: application accepts/declines; a stream host completes the SOCKS5 handshake or the last one drops the "
+                        "connection (the 7 s candidate timer is never waited for); removal of the manager / deletion of the job "
+                        "object by the application while a reply is pending is not driven",
                         "managers that need external state to accept a request (file-transfer jobs, joined MUC rooms, RPC "
                         "interfaces, a subscribed block list) are exercised without that state, i.e. on their refusal paths",
                         "QXmppCallManager (needs GStreamer) and QXmppOmemoManager (needs libomemo-c) are not part of the "
